@@ -708,6 +708,10 @@ struct Abs;
 
 impl Callable for Abs {
     fn call(args: Vec<DataType>) -> EvaluationResult<DataType> {
+        // a NULL argument gives NULL
+        if args.len() == 1 && args[0].is_null() {
+            return Ok(DataType::Null);
+        }
         if args.len() != 1 || !args[0].is_numeric() {
             return Err(EvaluationError::InvalidArguments(ScalarFunction::Abs));
         };
@@ -721,6 +725,10 @@ struct Ceil;
 
 impl Callable for Ceil {
     fn call(args: Vec<DataType>) -> EvaluationResult<DataType> {
+        // a NULL argument gives NULL
+        if args.len() == 1 && args[0].is_null() {
+            return Ok(DataType::Null);
+        }
         if args.len() != 1 || !args[0].is_numeric() {
             return Err(EvaluationError::InvalidArguments(ScalarFunction::Ceil));
         };
@@ -734,6 +742,10 @@ struct Floor;
 
 impl Callable for Floor {
     fn call(args: Vec<DataType>) -> EvaluationResult<DataType> {
+        // a NULL argument gives NULL
+        if args.len() == 1 && args[0].is_null() {
+            return Ok(DataType::Null);
+        }
         if args.len() != 1 || !args[0].is_numeric() {
             return Err(EvaluationError::InvalidArguments(ScalarFunction::Ceil));
         };
@@ -747,6 +759,10 @@ struct Round;
 
 impl Callable for Round {
     fn call(args: Vec<DataType>) -> EvaluationResult<DataType> {
+        // a NULL argument gives NULL
+        if args.len() == 1 && args[0].is_null() {
+            return Ok(DataType::Null);
+        }
         if args.len() != 1 || !args[0].is_numeric() {
             return Err(EvaluationError::InvalidArguments(ScalarFunction::Ceil));
         };
@@ -760,6 +776,10 @@ struct Sqrt;
 
 impl Callable for Sqrt {
     fn call(args: Vec<DataType>) -> EvaluationResult<DataType> {
+        // a NULL argument gives NULL
+        if args.len() == 1 && args[0].is_null() {
+            return Ok(DataType::Null);
+        }
         if args.len() != 1 || !args[0].is_numeric() {
             return Err(EvaluationError::InvalidArguments(ScalarFunction::Ceil));
         };
